@@ -52,6 +52,16 @@ def sweep_bounds(tier):
         else:
             d.update(passes=o.get("passes", 1))
         out[cls] = d
+    q = tier == "quick"
+    out["probes_at_larger_n"] = {
+        "note": "sparse, bounded unit ranges; Revolve family with 5 concrete cost vectors instead of symbolic costs",
+        "Multistage/Mixed": {"n": [25, 33, 47, 64] if q else [25, 29, 33, 38, 47, 55, 64, 81, 100, 128, 150],
+                             "ram<=": 4 if q else 7, "disk<=": 5 if q else 8, "s<=": 8 if q else 14},
+        "TwoLevel": {"n": [24, 40, 64] if q else [24, 32, 40, 50, 64, 80, 100], "periods": "5,7,12,16,32,35,n-1,n,n+3",
+                     "binomial_snapshots<=": 5 if q else 7},
+        "HRevolve": {"n": [30, 45] if q else [26, 30, 36, 45, 56, 64, 80], "ram<=": 4 if q else 5, "disk<=": 4 if q else 5},
+        "Revolve/DiskRevolve/PeriodicDiskRevolve": {"n": [40, 64] if q else [40, 52, 64, 80, 100, 128],
+                                                    "ram<=": "6/5/4" if q else "8/7/6"}}
     out["SingleMemory"] = {"n": "symbolic, 1..3*sys.maxsize", "passes": 3}
     out["None"] = {"n": "symbolic, 1..3*sys.maxsize"}
     return out
@@ -82,6 +92,24 @@ def sweep_jobs(tier, classes=None, passes=None):
     for tag, rng, o in HREV_EXTRA[tier]:
         for n in rng:
             add("HRevolve", n, 1, dict(o, tag=tag), w=1.4 ** n * 10)
+    # sparse probes at larger n (bounded unit ranges; Revolve family with a few concrete cost
+    # vectors instead of symbolic costs): cheap, they look for size thresholds the dense
+    # small-n sweep cannot reach
+    PV = [("1", "1", "2", "2"), ("3", "1", "1/2", "4"), ("1", "5", "3", "1/4"), ("2", "1", "0", "0"), ("1", "1", "40", "25")]
+    big = (25, 33, 47, 64) if q else (25, 29, 33, 38, 47, 55, 64, 81, 100, 128, 150)
+    for n in big:
+        add("Multistage", n, 1, {"ram_max": 4 if q else 7, "disk_max": 5 if q else 8, "tag": "/probe"}, w=n * 3)
+        add("Mixed", n, 1, {"smax": 8 if q else 14, "tag": "/probe"}, w=n * 2)
+    for n in ((24, 40, 64) if q else (24, 32, 40, 50, 64, 80, 100)):
+        add("TwoLevel", n, 2 if q else 3, {"periods": [5, 7, 12, 16, 32, 35, n - 1, n, n + 3], "bmax": 5 if q else 7,
+                                            "tag": "/probe"}, w=n * 6)
+    for n in ((30, 45) if q else (26, 30, 36, 45, 56, 64, 80)):
+        add("HRevolve", n, 1, {"rmin": 1, "rmax": 4 if q else 5, "dmin": 0, "dmax": 4 if q else 5, "cost_choices": PV,
+                                "tag": "/probe"}, w=n * 8)
+    for n in ((40, 64) if q else (40, 52, 64, 80, 100, 128)):
+        add("Revolve", n, 1, {"rmax": 6 if q else 8, "cost_choices": PV, "tag": "/probe"}, w=n * 2)
+        add("DiskRevolve", n, 1, {"rmax": 5 if q else 7, "cost_choices": PV, "tag": "/probe"}, w=n * 4)
+        add("PeriodicDiskRevolve", n, 1, {"rmax": 4 if q else 6, "cost_choices": PV, "tag": "/probe"}, w=n * 4)
     return jobs
 
 
